@@ -589,6 +589,8 @@ theorem mem_overrideInfo {s : Sys} {pf : File} {c : Nat} {nm : Name} {e : Emit} 
       ((e.row = .overrides ∧ ∃ b, b ∈ (s.ob c).mro.drop 1 ∧ member s b nm = some e.target)
        ∨ (e.row = .overriddenIn ∧ visible s e.target = true)) := by
   unfold overrideInfo at h
+  split at h
+  · simp at h
   rcases List.mem_append.mp h with h | h
   · split at h
     · simp at h
